@@ -144,18 +144,27 @@ def minimise(mod, prop_id, case, outcome, kf, deadline):
 
     target = outcome["oracle"]
     tried = 0
-    improved = True
-    while improved and time.time() < deadline:
-        improved = False
-        for cand in mod.shrink(case):
+    pos = 0  # resume where the last success happened: earlier candidates already failed once
+    full_pass_without_success = False
+    while not full_pass_without_success and time.time() < deadline:
+        progressed = False
+        j = -1
+        for j, cand in enumerate(mod.shrink(case)):
+            if j < pos:
+                continue
             if time.time() > deadline:
                 break
             tried += 1
             out = safe_execute(mod, cand)
             if out["status"] == "violation" and out["oracle"] == target and known.match(prop_id, cand, out) == kf:
                 case, outcome = cand, _slim(out)
-                improved = True
+                progressed = True
+                pos = j
                 break
+        if not progressed:
+            if pos == 0:
+                full_pass_without_success = True
+            pos = 0
     return case, outcome, tried
 
 
